@@ -391,9 +391,12 @@ def run_check(prop, tier, seed):
         dcases = [(s, l) for (s, l, k) in streams if k == dkey]
         if not dcases: continue
         lines = [l for _, l in dcases]
+        if hasattr(prop, "model_for"):            # cases borrowed from another property use that property's model runner
+            model_bin = build_model(prop.model_for(dkey))
         mo = None if getattr(prop, "TWO_STAGE", False) else run_lines(model_bin, lines)
         built = build_drivers_parallel(specs)
-        for (src, flavour, _ef), (path, blog) in zip(specs, built):
+        for spec_, (path, blog) in zip(specs, built):
+            src, flavour = spec_[0], spec_[1]
             oname = "correspondence %s[%s] (%d cases)" % (src, flavour, len(lines))
             if path is None:
                 corr_broken.append("driver %s [%s] does not compile against the current tree:\n%s" % (src, flavour, blog[-3000:]))
@@ -491,8 +494,9 @@ def replay(prop, path):
         print("model    :", mo[0]); print("spec     :", mo[1]); print("in-domain:", mo[2])
     rc = 0
     for dkey, specs in prop.drivers(r.get("tier", "quick")).items():
-        for (src, flavour, ef) in specs:
-            path_, blog = build_driver(src, flavour, ef)
+        for spec_ in specs:
+            src, flavour, ef = spec_[0], spec_[1], spec_[2]
+            path_, blog = build_driver(*spec_)
             if path_ is None: print("impl[%s,%s]: does not compile" % (src, flavour)); rc = 1; continue
             I = run_lines(path_, [line], shards=1)[0]
             if I in ("unsupported", "skip"): continue
